@@ -1110,7 +1110,26 @@ func (g *Gen) lifeProgram(n int) {
 			break
 		}
 		h := pick(g.r, hs)
-		switch g.r.weighted([]int{12, 14, 22, 10, 10, 8, 3, 21}) {
+		switch g.r.weighted([]int{12, 14, 22, 10, 10, 8, 3, 21, 6}) {
+		case 8:
+			// a bucket-level feed over two collections the handle has open
+			var cs []string
+			for c, ok := range collOpen[h] {
+				if ok {
+					cs = append(cs, c)
+				}
+			}
+			if len(cs) < 2 {
+				continue
+			}
+			sortStrings(cs)
+			a := g.r.intn(len(cs))
+			b := (a + 1 + g.r.intn(len(cs)-1)) % len(cs)
+			id := fmt.Sprintf("f%d", nf)
+			nf++
+			g.emit(Line{Op: "mfeed", Pos: []string{id, cs[a] + "," + cs[b]}, Args: [][2]string{{"via", h}}})
+			feeds = append(feeds, fd{id, cs[a], false})
+			g.stats["op:mfeed"]++
 		case 0:
 			for _, nh := range []string{"h1", "h2"} {
 				if _, ever := handles[nh]; !ever {
